@@ -50,8 +50,8 @@ def build_cfg_pair(define):
     """the build-option explorer (engine/seqx/c20cfg.cpp) against src/ and against the single header, both with the same option"""
     tag = "opt-" + (define.lower().replace("qtlogger_", "").replace("_", "") if define else "default")
     ef = ["-D" + define] if define else []
-    lib = vlib.build_lib("plain", variant=tag, extra_flags=ef)
-    src = vlib.build_exe("c20cfg", [os.path.join(SEQX, "c20cfg.cpp")], "plain", lib, extra_flags=["-I" + SEQX] + ef, variant=tag)
+    lib = vlib.build_lib("plain", variant=tag, extra_flags=ef) if define else vlib.build_lib("plain")     # default options: the library objects every plain build shares
+    src = vlib.build_exe("c20cfg", [os.path.join(SEQX, "c20cfg.cpp")], "plain", lib, extra_flags=["-I" + SEQX] + ef, variant=tag if define else "")
     hdr_file = os.path.join(vlib.REPO, "qtlogger.h")
     mocf = os.path.join(vlib.BUILD, "plain-hdr-" + tag, "moc_qtlogger.cpp")
     os.makedirs(os.path.dirname(mocf), exist_ok=True)
